@@ -6,11 +6,11 @@ import math
 
 from harness.dataset import Dataset
 
-STEPS = [600, 900, 1200, 1800, 3600]
+STEPS = [600, 900, 1200, 1800, 3600, 90, 3900, 100, 460]   # incl. not whole minutes / hours not exact in binary
 THRS = [0.5, 1.0, 2.0, 4.0, 5.0, 8.0, 0.3, 2.5]
 
 CLASSES = ['events', 'random', 'chain', 'edges', 'allrain', 'norain', 'threshold', 'gappy',
-           'long_rise', 'long_storm']
+           'long_rise', 'long_storm', 'contested']
 
 
 def nextafter(x, up=True):
@@ -21,7 +21,7 @@ def rain_value(rng, thr_s, kind):
     if kind == 'dry':
         return 0.0
     if kind == 'light':
-        return rng.choice([thr_s, thr_s / 2, nextafter(thr_s, False), 0.1, thr_s])
+        return max(0.0, rng.choice([thr_s, thr_s / 2, nextafter(thr_s, False), 0.1, thr_s]))
     if kind == 'heavy':
         return rng.choice([nextafter(thr_s), thr_s * 2, thr_s + 1.5, 3 * thr_s, thr_s + 0.25])
     raise ValueError(kind)
@@ -69,6 +69,35 @@ def gen_flags(rng, cls, n):
             i = max(rs + lr - 1, i + ls) + rng.randrange(0, 2)
             if rng.random() < 0.25:
                 i += rng.randrange(1, 4)
+    elif cls == 'contested':
+        # two (or three) bursts A, B(, C) of unequal lengths; one rise runs from inside A into B (contested by
+        # both), a second rise lies later inside B (B has two candidates), optionally mirrored: the start
+        # offsets |rise start - storm start| differ from pair to pair, so a preference computed from the wrong
+        # pair changes the winner
+        i = rng.randrange(0, 3)
+        spans = []
+        for _ in range(rng.choice([2, 2, 3])):
+            ln = rng.randrange(2, 8)
+            spans.append((i, i + ln))
+            i += ln + rng.randrange(1, 3)
+        if rng.random() < 0.5:
+            spans = [(n - 1 - b, n - 1 - a) for a, b in reversed(spans)]   # mirrored in time
+        spans = [(max(0, a), min(n, b)) for a, b in spans if b > 0 and a < n]
+        for a, b in spans:
+            for k in range(a, b):
+                heavy[k] = True
+        for (a0, a1), (b0, b1) in zip(spans[:-1], spans[1:]):
+            r1s = max(a0, a1 - rng.randrange(1, 4))
+            r1e = min(b1 - 1, b0 + rng.randrange(1, max(2, b1 - b0 - 1)))
+            for k in range(r1s, r1e):
+                fast[k] = True
+            r2s = r1e + 1 + rng.randrange(0, 2)
+            r2e = b1 + rng.randrange(0, 2)
+            for k in range(r2s, min(n, r2e)):
+                fast[k] = True
+            if rng.random() < 0.4:      # and an early rise inside A
+                for k in range(a0 + rng.randrange(0, 2), max(a0, r1s - 1)):
+                    fast[k] = True
     elif cls == 'long_rise':
         a = rng.randrange(0, max(1, n // 3))
         b = rng.randrange(min(n - 1, a + 3), n)
@@ -129,7 +158,14 @@ def gen_record(rng, cls=None, nmax=40):
     step = rng.choice(STEPS)
     thr_s = rng.choice(THRS)
     thr_j = rng.choice(THRS)
+    if rng.random() < 0.04:   # a zero threshold is a threshold ("all threshold pairs", C03): > 0 means any rain / any rise
+        if rng.random() < 0.5:
+            thr_s = 0.0
+        else:
+            thr_j = 0.0
     n = rng.randrange(2, nmax)
+    if cls == 'contested':
+        n = rng.randrange(14, max(15, nmax))
     heavy, light, fast = gen_flags(rng, cls, n)
     delta = thr_j * (step / 3600.0)
     rain, zeta = [], [rng.choice([-300.0, -50.25, 0.0, 12.5, -1000.0])]
